@@ -43,9 +43,13 @@ func init() {
 		Runs: func(tier string) []gosym.RunConfig {
 			pl := []int64{24}
 			if tier == "thorough" {
-				pl = []int64{16, 24, 28}
+				pl = []int64{16, 24, 25, 28}
 			}
 			var rs []gosym.RunConfig
+			if tier != "thorough" {
+				// a subnet narrower than /24: automatic assignment only
+				rs = append(rs, gosym.RunConfig{Name: "router-addnic-step-p25-s0", Entry: "VerifRouterAddNIC", Unwind: 300, AssertPrefix: "C13:", Params: map[string]int64{"prefix": 25, "nstatic": 0}})
+			}
 			for _, p := range pl {
 				for ns := int64(0); ns <= 2; ns++ {
 					rs = append(rs, gosym.RunConfig{Name: fmt.Sprintf("router-addnic-step-p%d-s%d", p, ns), Entry: "VerifRouterAddNIC", Unwind: 300, AssertPrefix: "C13:", Params: map[string]int64{"prefix": p, "nstatic": ns}})
@@ -88,6 +92,7 @@ func init() {
 			}
 			return []gosym.RunConfig{
 				{Name: "hop-write", Entry: "VerifHopWrite", Sched: true, AssertPrefix: "C01:"},
+				{Name: "hop-write-wild", Entry: "VerifHopWriteWild", Sched: true, AssertPrefix: "C01:"},
 				{Name: fmt.Sprintf("hop-queue-k%d", k), Entry: "VerifHopQueue", Sched: true, AssertPrefix: "C01:", Params: map[string]int64{"k": k}},
 				{Name: "hop-read", Entry: "VerifHopRead", Sched: true, AssertPrefix: "C01:"},
 				{Name: "hop-route", Entry: "VerifRouterProcess", Sched: true, Unwind: 6, AssertPrefix: "C01:"},
